@@ -326,7 +326,7 @@ def shards(tier):
     # one-qubit words followed by one measuring operation: long enough for floating-point residues (p ~ 1e-34) to appear in the
     # density-matrix back end, where forced outcomes must still be decided by 0 / non-0
     for t in ("e", "p"):
-        for first in ("H", "P", "X", "Z"):
+        for first in ("H", "P", "X", "Y", "Z"):
             out.append({"kind": "words", "qubit": t, "first": first, "L": 4 if tier == "quick" else 5})
     for layout, L in init_plan:
         ninit = {1: 6, 2: 60}[layout[0] + layout[1]]
@@ -374,7 +374,7 @@ def run_shard(shard, tier, acc):
         o = "p" if t == "e" else "e"
         tails = [["MZ", t, 0, 0], ["CCNOT", t, 0, o, 0, 0], ["CCZ", t, 0, o, 0, 0], ["MCR", t, 0, o, 0, 0]]
         for n in range(0, shard["L"]):
-            for w in itertools.product(("H", "P", "X", "Z"), repeat=n):
+            for w in itertools.product(("H", "P", "X", "Y", "Z") if n <= 2 else ("H", "P", "X", "Z"), repeat=n):
                 word = [["1", shard["first"], t, 0]] + [["1", x, t, 0] for x in w]
                 for tail in tails:
                     for prefix in ([], [["1", "H", o, 0]]):
